@@ -74,6 +74,9 @@ type Outcome struct {
 	File    string `json:"file,omitempty"` // file the error is located in (verif hook)
 	FileLen int    `json:"file_len,omitempty"`
 
+	// LibFault: a Go runtime fault recovered inside the schema library during this run (first frame).
+	LibFault string `json:"lib_fault,omitempty"`
+
 	Panic string `json:"panic,omitempty"`
 	Site  string `json:"site,omitempty"` // top repo frame of the panic
 	Stack string `json:"-"`
@@ -98,6 +101,13 @@ func (o Outcome) Short() string {
 	return o.Kind + " " + o.Msg
 }
 
+// resetFault / takeFault are set by the overlay build (fault_overlay.go): runtime faults the
+// schema library recovered from during the last run, attributed to their first frame.
+var (
+	resetFault = func() {}
+	takeFault  = func() string { return "" }
+)
+
 // FileNameOf is set by the verif-tagged build (hooks_verif.go) to read the located file name.
 var FileNameOf func(*jerr.JApiError) string
 
@@ -112,6 +122,8 @@ func finish(j kit.JApi, full bool) (out Outcome) {
 			out.Site = repoFrame(out.Stack)
 		}
 	}()
+	resetFault()
+	defer func() { out.LibFault = takeFault() }()
 	je := j.ValidateJAPI()
 	if je != nil {
 		out.Kind = "err"
